@@ -153,6 +153,10 @@ _CPP_RESERVED_WORDS = set(
     )
 )
 
+# The qualifier of the attributes that are addressed to this back end, as in
+# `[(cpp) namespace: "foo"]`.
+_BACK_END = "cpp"
+
 # The support namespace, as a C++ namespace prefix.  This namespace contains the
 # Emboss C++ support classes.
 _SUPPORT_NAMESPACE = "::emboss::support"
@@ -212,7 +216,9 @@ def _get_module_namespace(module):
       A list of strings, one per namespace component.  This list can be formatted
       as appropriate by the caller.
     """
-    namespace_attr = ir_util.get_attribute(module.attribute, "namespace")
+    namespace_attr = ir_util.get_attribute(
+        module.attribute, attributes.Attribute.NAMESPACE, back_end=_BACK_END
+    )
     if namespace_attr and namespace_attr.string_constant.text:
         namespace = namespace_attr.string_constant.text
     else:
@@ -1835,7 +1841,7 @@ def _get_enum_value_names(enum_value):
     cases = ["SHOUTY_CASE"]
     name = enum_value.name.name.text
     if enum_case := ir_util.get_attribute(
-        enum_value.attribute, attributes.Attribute.ENUM_CASE
+        enum_value.attribute, attributes.Attribute.ENUM_CASE, back_end=_BACK_END
     ):
         cases = _split_enum_case_values(enum_case.string_constant.text)
     return [name_conversion.convert_case("SHOUTY_CASE", case, name) for case in cases]
@@ -1940,7 +1946,9 @@ def _generate_header_guard(file_path):
 def _add_missing_enum_case_attribute_on_enum_value(enum_value, defaults):
     """Adds an `enum_case` attribute if there isn't one but a default is set."""
     if (
-        ir_util.get_attribute(enum_value.attribute, attributes.Attribute.ENUM_CASE)
+        ir_util.get_attribute(
+            enum_value.attribute, attributes.Attribute.ENUM_CASE, back_end=_BACK_END
+        )
         is None
     ):
         if attributes.Attribute.ENUM_CASE in defaults:
@@ -1971,7 +1979,7 @@ def _propagate_defaults(ir, targets, ancestors, add_fn):
         incidental_actions={
             ancestor: attribute_util.gather_default_attributes for ancestor in ancestors
         },
-        parameters={"defaults": {}},
+        parameters={"defaults": {}, "back_end": _BACK_END},
     )
 
 
@@ -2002,8 +2010,16 @@ def _offset_source_location_column(source_location, offset):
     return new_location
 
 
+def _is_cpp_attribute(attr, name):
+    """Returns true if attr is the `(cpp)` attribute called name."""
+    return (
+        attr.name.text == name
+        and ir_data_utils.reader(attr).back_end.text == _BACK_END
+    )
+
+
 def _verify_namespace_attribute(attr, source_file_name, errors):
-    if attr.name.text != attributes.Attribute.NAMESPACE:
+    if not _is_cpp_attribute(attr, attributes.Attribute.NAMESPACE):
         return
     namespace_value = ir_data_utils.reader(attr).value.string_constant
     if not re.fullmatch(_NS_RE, namespace_value.text):
@@ -2058,7 +2074,7 @@ _VALID_CASES = ", ".join(case for case in _SUPPORTED_ENUM_CASES)
 
 def _verify_enum_case_attribute(attr, source_file_name, errors):
     """Verify that `enum_case` values are supported."""
-    if attr.name.text != attributes.Attribute.ENUM_CASE:
+    if not _is_cpp_attribute(attr, attributes.Attribute.ENUM_CASE):
         return
 
     enum_case_value = attr.value.string_constant
@@ -2141,7 +2157,7 @@ def _propagate_defaults_and_verify_attributes(ir, config=Config()):
         verification completed successfully."""
     if errors := attribute_util.check_attributes_in_ir(
         ir,
-        back_end="cpp",
+        back_end=_BACK_END,
         types=attributes.TYPES,
         module_attributes=attributes.Scope.MODULE,
         struct_attributes=attributes.Scope.STRUCT,
